@@ -40,6 +40,24 @@ const SCOPES: &[(&str, &str, &str)] = &[
     ("fn outer() {\n    fn  nested ( ) {\n", "\n    }\n}\n", "nested-fn"),
 ];
 
+/// containers that accept the skip attribute as an *inner* attribute: (text around the protected
+/// node, the protected node with `{A}` standing for the attribute, label)
+const INNER: &[(&str, &str, &str, &str)] = &[
+    ("", "fn  f ( a : u8 ) {\n    {A}\n  let  x = 1 ;\n     call ( a,b ) ;\n}", "", "fn"),
+    ("", "impl  Foo {\n {A}\n fn  g ( ) { }\n   const  C : u8 = 1 ;\n}", "", "impl"),
+    ("", "trait  T {\n {A}\n fn  g ( ) ;\n   type  X ;\n}", "", "trait"),
+    ("", "mod  m {\n {A}\n fn  g ( ) { }\n  use  b :: a ;\n}", "", "inline-mod"),
+    ("", "extern \"C\" {\n {A}\n fn  g ( ) ;\n   static  X : u8 ;\n}", "", "extern-block"),
+    ("impl  Bar {\n", "fn  h ( ) { {A}\n let  y = 2 ; }", "\n}", "method"),
+    ("trait  Tr {\n", "fn  h ( ) { {A}\n let  y = 2 ; }", "\n}", "trait-method"),
+    ("fn k() { let  c = | | ", "{ {A}\n let  z = 3 ; }", "; }", "closure-block"),
+    ("fn outer ( ) {\n", "fn  n ( ) { {A}\n let  q = 4 ; }", "\n}", "nested-fn"),
+    ("fn k ( ) {\n ", "{ {A}\n let  z = 3 ; }", "\n}", "block-statement"),
+    ("mod  outer {\n", "mod  m {\n {A}\n fn  g ( ) { }\n}", "\n}", "nested-mod"),
+];
+
+const INNER_SPELLINGS: &[&str] = &["#![rustfmt::skip]", "#![cfg_attr(rustfmt, rustfmt::skip)]", "#![cfg_attr(rustfmt, rustfmt_skip)]", "#![ rustfmt :: skip ]", "#![cfg_attr(any(), rustfmt::skip)]"];
+
 fn run_bin(r: &RunCtx, cwd: &std::path::Path, args: &[String]) -> Option<(Option<i32>, String, String)> {
     let out = Command::new(r.bin_dir.join("rustfmt")).args(args).current_dir(cwd).env("RUSTC_ICE", "0").stdin(Stdio::null()).stdout(Stdio::piped()).stderr(Stdio::piped()).output().ok()?;
     Some((out.status.code(), String::from_utf8_lossy(&out.stdout).into_owned(), String::from_utf8_lossy(&out.stderr).into_owned()))
@@ -65,13 +83,34 @@ impl Property for C04 {
         }
     }
     fn rule(&self) -> &'static str {
-        "generated programs (grammar generator, 12 node kinds: items, nested/associated/foreign items, let / expression / macro statements, expressions, fields, variants, arms, inline modules) in which one node carries a skip attribute in one of six spellings and is laid out wildly, x width 20..200 x up to 3 options; hand-scoped programs in which a macro named by rustfmt::skip::macros (outer or inner attribute) or skip_macro_invocations, or an attribute named by rustfmt::skip::attributes, sits in one of eight enclosing scopes (function body, closure body, nested block, impl / trait method, inline module, match-arm block, nested fn); whole-file opt-outs through the real binary (inner skip attribute, disable_all_formatting, ignore match, @generated marker with format_generated_files=false) in files mode and --check; oracle: the bytes of the node proper (located in the input by an independent parse, outer attributes excluded), of the macro arguments and of the named attribute occur in the emitted text byte for byte; an opted-out file is byte-identical afterwards, --check exits 0 and prints nothing; non-trivial = the protected bytes differ from what rustfmt makes of them without the protection; distinct by case content"
+        "generated programs (grammar generator, 12 node kinds: items, nested/associated/foreign items, let / expression / macro statements, expressions, fields, variants, arms, inline modules) in which one node carries a skip attribute in one of six spellings and is laid out wildly, x width 20..200 x up to 3 options; hand-scoped programs in which a macro named by rustfmt::skip::macros (outer or inner attribute) or skip_macro_invocations, or an attribute named by rustfmt::skip::attributes, sits in one of eight enclosing scopes (function body, closure body, nested block, impl / trait method, inline module, match-arm block, nested fn); containers carrying the skip attribute as an inner attribute in five spellings (fn, impl, trait, inline and nested module, extern block, method, nested fn, closure block, block statement); whole-file opt-outs through the real binary (inner skip attribute, disable_all_formatting, ignore match, @generated marker with format_generated_files=false) in files mode and --check; oracle: the bytes of the node proper (located in the input by an independent parse, outer attributes excluded), of the macro arguments and of the named attribute occur in the emitted text byte for byte; an opted-out file is byte-identical afterwards, --check exits 0 and prints nothing; non-trivial = the protected bytes differ from what rustfmt makes of them without the protection; distinct by case content"
     }
     fn assumptions(&self) -> Vec<&'static str> {
         vec!["the input has LF terminators and newline_style is left at its default, so terminator conversion does not touch the skipped bytes", "the attribute must be accepted by the parser at the chosen node (cases where the program with the attribute does not parse are skipped)"]
     }
     fn generate(&self, c: &mut Choices<'_>, _g: &GenCtx) -> Value {
-        match c.weighted(&[6, 3, 1]) {
+        match c.weighted(&[6, 3, 1, 1]) {
+            3 => {
+                let (pre, node, post, label) = *c.pick(INNER);
+                let attr = *c.pick(INNER_SPELLINGS);
+                let protected = node.replace("{A}", attr);
+                let mut src = String::new();
+                if c.flip() {
+                    src.push_str("fn  before ( ) { }\n");
+                }
+                src.push_str(&format!("{pre}{protected}{post}\n"));
+                if c.flip() {
+                    src.push_str("fn  after ( ) { }\n");
+                }
+                let mut opts: Opts = vec![("max_width".into(), (30 + c.below(100)).to_string())];
+                if c.chance(1, 4) {
+                    opts.push(("hard_tabs".into(), "true".into()));
+                }
+                if c.chance(1, 4) {
+                    opts.push(("style_edition".into(), (*c.pick(&["2015", "2021", "2024"])).to_string()));
+                }
+                json!({"kind": "inner-skip", "src": src, "opts": opts_to(&opts), "protected": [protected], "scope": label, "via": attr, "attr": attr})
+            }
             0 => {
                 let p = gen_prog(c, &ProgSpace::default());
                 // choose the node kind first, then a node of that kind (kinds are very unevenly frequent)
@@ -225,7 +264,7 @@ impl Property for C04 {
                 let main = first.attrs_hi + src[first.attrs_hi..first.hi].len() - src[first.attrs_hi..first.hi].trim_start().len();
                 o.nontrivial = unprotected.emitted() && !unprotected.text.contains(&src[main..first.hi]);
             }
-            "macro-list" | "attribute-list" => {
+            "macro-list" | "attribute-list" | "inner-skip" => {
                 let src = case["src"].as_str().unwrap_or("");
                 let opts = opts_from(&case["opts"]);
                 if !parses(src, "2015") {
@@ -245,6 +284,13 @@ impl Property for C04 {
                     if got < want {
                         return Outcome::fail(format!("{kind}-changed:{}", case["scope"].as_str().unwrap_or("?")), format!("`{p}` occurs {want} times in the input and {got} times in the output\n--- input ---\n{src}\n--- output ---\n{}\nopts {opts:?}", out.text)).nontrivial(true);
                     }
+                }
+                if kind == "inner-skip" {
+                    // non-trivial: without the attribute the container is changed
+                    let attr = case["attr"].as_str().unwrap_or("");
+                    let un = format_text(&src.replace(attr, ""), &opts);
+                    o.nontrivial = un.emitted() && protected.iter().any(|p| !un.text.contains(&p.replace(attr, "")));
+                    return o;
                 }
                 // non-trivial: the same text without the protection is changed
                 let stripped: String = src.lines().filter(|l| !l.contains("rustfmt::skip::")).collect::<Vec<_>>().join("\n") + "\n";
